@@ -33,7 +33,7 @@ def run(chk):
     if chk.want("R04.5"):
         r04_5(chk, repo, cr)
     chk.rule("R04.7", "image labelling: a unit-cell molecule takes the index of a unique molecule only when both have the same parent-site "
-                      "indices (asymmetric_unit_atoms); the unique molecules are numbered by their position in the returned list", 2)
+                      "indices (asymmetric_unit_atoms); the unique molecules are numbered by their position in the returned list; coverage of the asymmetric unit by construction", 3)
     if chk.want("R04.7"):
         r04_7(chk, cr)
     chk.rule("R04.8", "memo discipline of class Crystal (= C14 R14.2): every state-changing method drops every memoised quantity, including any newly introduced cache", 2)
@@ -123,6 +123,16 @@ def r04_mol(chk, cr):
     defs = {k[1]: v for k, v in ev.defs.items()}
     if chk.want("R04.1"):
         st = [e for e in ev.events if e.kind == "store" and len(e.loops) == 2 and "shifts" in e.target.key()]
+        if len(st) != 2:
+            # whole molecules need the bond graph: an atom's cell is its bonded neighbour's cell plus the offset stored for that bond.
+            # Any rule that places atoms relative to one reference atom (minimum image) tears molecules longer than half a cell.
+            sh = [e for e in ev.events if e.kind in ("assign", "store") and (e.name == "shifts" or (e.target is not None and "shifts" in e.target.key()))]
+            uses_graph = any("edge_cells" in e.value.key() for e in sh if e.value is not None)
+            if sh and not uses_graph:
+                chk.ob("R04.1", CR, q, "the cell offset of every atom is derived along the bonds (offset of its bonded predecessor plus the offset stored "
+                       "for that edge)", False, node=sh[-1].node, fingerprint="shift-from-graph",
+                       expected="shifts[j] = shifts[pred[j]] +- edge_cells[...] over a traversal of the molecule's bond graph",
+                       found=f"shifts = {str(sh[-1].value)[:140]} (no use of the stored edge offsets)")
         chk.need(len(st) == 2, f"{q}: the two shift updates of the breadth-first walk were not found")
         loop = st[0].loops[-1]
         j = P.atom(("sub", loop.iter, (loop.index,)))
@@ -269,6 +279,51 @@ def r04_5(chk, repo, cr):
 
 
 # ------------------------------------------------------------------------------------------------ R04.7
+def coverage_by_construction(chk, cr, ev, q):
+    """The unique molecules cover every asymmetric-unit atom exactly once because (a) the result starts empty, (b) a molecule is
+    added only in the scan over all unit-cell molecules, in the same step that marks its parent sites in the coverage mask and only
+    when they were not all marked before, (c) that scan is not skipped on any path."""
+    from ..symex import obj_init
+    setm = [e for e in ev.events if e.kind == "call" and call_name(e.value.as_atom() or ()) == "setattr" and len(e.extra["args"]) == 3
+            and string_value(e.extra["args"][1]) == "_symmetry_unique_molecules"]
+    chk.need(len(setm) == 1, f"{q}: memo store of the unique molecules not found")
+    res = setm[0].extra["args"][2]
+    ra = res.as_atom()
+    chk.need(ra and ra[0] == "obj", f"{q}: the list of unique molecules is not a local list")
+    init = obj_init(res)
+    empty = init.key() in ("(tuple ())", "list()")
+    apps = [e for e in ev.events if e.kind == "call" and e.target is not None and e.target.key() == f"{res}.append"]
+    memo_guard = lambda c: "hasattr(self" in c.key()
+    ok_steps = bool(apps)
+    why = []
+    for e in apps:
+        if not e.loops:
+            ok_steps = False
+            why.append("append outside the scan")
+            continue
+        lp = e.loops[-1]
+        marks = [x for x in ev.events if x.kind == "store" and x.loops and x.loops[-1].k == lp.k and x.value.key() == "True"
+                 and tuple((c.key(), p) for c, p in x.guards) == tuple((c.key(), p) for c, p in e.guards)
+                 and "asymmetric_unit_atoms" in x.target.key()]
+        test_new = any((not p) and call_name(c.as_atom() or ()) == "numpy.all" and "asymmetric_unit_atoms" in c.key() for c, p in e.guards)
+        it = lp.iter.key() if lp.iter is not None else ""
+        over_all = "unit_cell_molecules(" in it
+        outer = [c for c, p in e.guards if not memo_guard(c) and not any(l.k == lp.k for l in ()) and "asymmetric_unit_atoms" not in c.key()]
+        if not marks:
+            why.append("the appended molecule's parent sites are not marked in the same step")
+        if not test_new:
+            why.append("append not restricted to molecules with unmarked parent sites")
+        if not over_all:
+            why.append(f"scan is over {it[:60]}, not all unit-cell molecules")
+        if outer:
+            why.append(f"scan only runs under {[str(c)[:50] for c in outer]}")
+        ok_steps = ok_steps and bool(marks) and test_new and over_all and not outer
+    chk.ob("R04.7", CR, q, "coverage by construction: the result starts empty; molecules are added only in an unconditional scan over all unit-cell "
+           "molecules, each together with marking its parent sites and only if those were not all marked", empty and ok_steps, node=setm[0].node,
+           fingerprint="coverage", expected="molecules = []; for mol in sorted(uc_molecules): if all marked: continue; mark; append",
+           found=(f"initial value {str(init)[:80]}; " if not empty else "") + "; ".join(sorted(set(why))))
+
+
 def r04_7(chk, cr):
     """Which per-atom property decides that a unit-cell molecule is an image of a unique molecule?
 
@@ -277,6 +332,7 @@ def r04_7(chk, cr):
     q = "Crystal.symmetry_unique_molecules"
     ev = cr.ev(q)
     chk.saw(CR, q)
+    coverage_by_construction(chk, cr, ev, q)
     stores = [e for e in ev.events if e.kind == "store" and e.target.key().endswith(".properties['asym_mol_idx']")]
     chk.need(len(stores) >= 2, f"{q}: expected the numbering store and the image-labelling store of asym_mol_idx")
     numbering = [e for e in stores if e.value.as_atom() and e.value.as_atom()[0] == "lv"]
